@@ -424,6 +424,9 @@ func (s *Solver) getModel() map[string]uint64 {
 	for _, n := range s.pr.VarOrder {
 		sb.WriteString(symName(n) + " ")
 	}
+	for _, n := range s.pr.UFNames {
+		sb.WriteString(n + " ")
+	}
 	sb.WriteString("))\n")
 	s.p.send(sb.String())
 	resp, err := s.p.readResp()
@@ -435,7 +438,8 @@ func (s *Solver) getModel() map[string]uint64 {
 		return nil
 	}
 	m := parseModel(resp, s.pr.Vars)
-	if len(m) != len(s.pr.VarOrder) {
+	s.liftUFValues(m)
+	if len(m) < len(s.pr.VarOrder) {
 		s.Stats.Errors++
 		if s.Log != nil {
 			fmt.Fprintf(s.Log, "get-value incomplete: %d of %d: %q\n", len(m), len(s.pr.VarOrder), resp)
@@ -508,6 +512,9 @@ func (s *Solver) oneShotC(name string, argv []string, query string, wantModel bo
 		for _, n := range s.pr.VarOrder {
 			sb.WriteString(symName(n) + " ")
 		}
+		for _, n := range s.pr.UFNames {
+			sb.WriteString(n + " ")
+		}
 		sb.WriteString("))\n")
 	}
 	f, err := os.CreateTemp("", "symgo-*.smt2")
@@ -575,6 +582,7 @@ func (s *Solver) oneShotC(name string, argv []string, query string, wantModel bo
 			return Unknown, nil
 		}
 		m := parseModel(lines[1], s.pr.Vars)
+		s.liftUFValues(m)
 		if len(m) != len(s.pr.VarOrder) {
 			return Unknown, nil
 		}
@@ -585,3 +593,17 @@ func (s *Solver) oneShotC(name string, argv []string, query string, wantModel bo
 
 // Script returns the SMT-LIB text of the current path context (debugging).
 func (s *Solver) Script() string { return s.script.String() }
+
+// liftUFValues moves the values reported for the define-fun names of UF
+// applications (t17 ...) to the keys Eval looks them up under.
+func (s *Solver) liftUFValues(m map[string]uint64) {
+	for i, n := range s.pr.UFNames {
+		if v, ok := m[n]; ok {
+			m[UFModelKey(s.pr.UFNodes[i])] = v
+			delete(m, n)
+		}
+	}
+}
+
+// UFNodes exposes the UF applications asserted so far (for replay tables).
+func (s *Solver) UFNodes() []*Term { return s.pr.UFNodes }
